@@ -66,8 +66,7 @@ Proof.
     by (intros; rewrite ago_snoc_S; cbn [gpow]; ring).
   pose proof (rsum_scale K k0 k1 kadd kmul ksub kopp Kth) as Sc. unfold rsum in Sc. rewrite Sc.
   replace (S (N - 1)) with N by lia.
-  assert (E : pow w (S N) = w) by (cbn [gpow]; rewrite Hw; ring).
-  rewrite E. cbn [gpow]. ring.
+  rewrite Hw. cbn [gpow]. ring.
 Qed.
 End Pow.
 
@@ -99,6 +98,7 @@ Lemma cx_ring_theory : ring_theory cx0 cx1 cx_add cx_mul cx_sub cx_opp (@eq cx).
 Proof. constructor; cx_ring. Qed.
 
 Add Ring Cring : cx_ring_theory.
+Ltac cring := match goal with |- @eq _ ?a ?b => change (@eq (SpecDSP.cx R) a b) end; ring.
 
 Lemma cx_of_real_0 : cx_of_real r0 = cx0.
 Proof. reflexivity. Qed.
@@ -116,7 +116,7 @@ Lemma cx_conj_real x : cx_conj (cx_of_real x) = cx_of_real x.
 Proof. cx_ring. Qed.
 
 Lemma cx_norm_conj z : cx_norm (cx_conj z) = cx_norm z.
-Proof. cx_ring. ring. Qed.
+Proof. cx_ring; try ring. Qed.
 
 Lemma cx_conj_pow u k : cx_conj (cx_pow u k) = cx_pow (cx_conj u) k.
 Proof.
@@ -201,7 +201,7 @@ Proof.
   destruct (sdft_step N coeff rho st a) as [st1 y]. cbn [fst snd] in S. destruct S as (I1 & Y & St).
   specialize (IHxs (pre ++ [a]) st1 I1). destruct (sdft_run N coeff rho st1 xs) as [st2 ys]. cbn [snd] in *.
   destruct n.
-  - cbn [nth firstn]. rewrite app_nil_r, Y. ring.
+  - cbn [nth firstn]. rewrite app_nil_r, Y. cring.
   - cbn [nth firstn]. simpl in Hn. rewrite IHxs by lia. rewrite <- app_assoc. cbn [app].
     destruct n; [rewrite St; reflexivity|reflexivity].
 Qed.
@@ -211,7 +211,7 @@ Notation slide := (slide cx cx0 cx1 cx_add cx_mul).
 
 Lemma ago_map_real xs d : ago cx0 (map cx_of_real xs) d = cago xs d.
 Proof.
-  unfold cago, LemmasDSP_Sum.ago. rewrite map_length. destruct (d <? length xs); [|reflexivity].
+  unfold cago, LemmasDSP_Sum.ago. rewrite map_length. destruct (Nat.ltb_spec d (length xs)); [|reflexivity].
   apply nth_map_in. lia.
 Qed.
 
@@ -229,7 +229,7 @@ Proof.
     rewrite (slide_push cx cx0 cx1 cx_add cx_mul cx_sub cx_opp cx_ring_theory) by assumption.
     rewrite ago_map_real. reflexivity. }
   assert (Hr1 : sdft_result st1 = slide w N (map cx_of_real (pre ++ [a]))).
-  { rewrite St, Ey. unfold SpecDSP.cx_of_real. fold cx1. ring. }
+  { rewrite St, Ey. unfold SpecDSP.cx_of_real. fold cx1. cring. }
   specialize (IHxs (pre ++ [a]) st1 I1 Hr1). destruct (sdft_run N w r1 st1 xs) as [st2 ys]. cbn [snd] in *.
   destruct n.
   - cbn [nth firstn]. exact Ey.
@@ -241,21 +241,12 @@ Lemma firstn_S_ago (xs : list R) n d : n < length xs -> d <= n ->
 Proof.
   intros Hn Hd. unfold LemmasDSP_Sum.ago. rewrite firstn_length_le by lia.
   destruct (Nat.ltb_spec d (S n)); [|lia].
-  replace (S n - 1 - d) with (n - d) by lia.
-  rewrite <- (firstn_skipn (S n) xs) at 2. rewrite app_nth1; [reflexivity|].
-  rewrite firstn_length_le; lia.
+  replace (S n - 1 - d) with (n - d) by lia. apply nth_firstn_lt. lia.
 Qed.
 
 Lemma nth_window N xs n j : N - 1 <= n -> n < length xs -> j < N ->
   nth j (window R N xs n) r0 = nth (n + 1 - N + j) xs r0.
-Proof.
-  intros. unfold window.
-  rewrite <- (firstn_skipn N (skipn (n + 1 - N) xs)) at 2.
-  rewrite <- (firstn_skipn (n + 1 - N) xs) at 3.
-  rewrite app_nth2; rewrite firstn_length_le by lia; [|lia].
-  replace (n + 1 - N + j - (n + 1 - N)) with j by lia.
-  rewrite app_nth1; [reflexivity|]. rewrite firstn_length_le; [lia|]. rewrite skipn_length. lia.
-Qed.
+Proof. intros. unfold window. rewrite nth_firstn_lt by assumption. apply nth_skipn_add. Qed.
 
 Lemma window_length N xs n : N - 1 <= n -> n < length xs -> length (window R N xs n) = N.
 Proof. intros. unfold window. rewrite firstn_length_le; [reflexivity|]. rewrite skipn_length. lia. Qed.
@@ -292,7 +283,10 @@ Proof.
   intros HN Hw Hu Hn Hl. rewrite sdft_is_dft_lemma by assumption.
   rewrite <- dft_bin_conj. f_equal.
   apply (inverse_unique cx cx0 cx1 cx_add cx_mul cx_sub cx_opp cx_ring_theory) with (c := w).
-  - unfold SpecDSP.cx_pow in *. rewrite <- Hw. replace N with (S (N - 1)) at 2 by lia. cbn [gpow]. ring.
+  - unfold SpecDSP.cx_pow in *.
+    assert (E : gpow cx1 cx_mul w N = cx_mul (gpow cx1 cx_mul w (N - 1)) w)
+      by (replace N with (S (N - 1)) at 1 by lia; cbn [gpow]; ring).
+    rewrite <- E. exact Hw.
   - rewrite <- Hu. ring.
 Qed.
 
